@@ -4,6 +4,30 @@ import json, os
 HERE = os.path.dirname(os.path.dirname(os.path.abspath(__file__)))
 
 CLAIMS = {
+    "C08": ("flow-sensitive typestate walk of one optimize() run per class: Leak = upward-exposed fields ∩ written fields (ast, MRO inlining)",
+            "Static typestate/effect analysis over 84 class contexts: optimize() is walked with all self/super/closure calls "
+            "inlined through the MRO; a field read, read-modify-written or mutated in place (aliases and helper-object "
+            "methods included) before being definitely assigned afresh in the run, and written by the run, is state leaking "
+            "between optimize() calls. Empty Leak for every class is necessary for history independence and is decided for "
+            "all call histories at once.",
+            "Does not cover state outside the instance (global RNG -> C07, configuration object -> C09); closed-world guard R0; "
+            "helper objects are attributed to the field holding them.",
+            "DESIGN.md 4/C08"),
+    "C12": ("non-interference (taint-to-sink) analysis of direction and fitness reads + partial evaluation of the sign conversions under MIN/MAX",
+            "Static non-interference: all references to the task direction and to Agent.fitness are enumerated and their "
+            "sinks classified against an allow-list; algorithm code passes no direction to the selection helpers; the stop "
+            "formula uses rates only under the optional criteria; _fcn and the two restoration closures are partially "
+            "evaluated under MIN and MAX and must compose to the identity. Sufficient and necessary for the duality of "
+            "single-objective runs stopped by cycle count.",
+            "IEEE negation is exact; AntLion (fitness-weighted) is the exception the property names; closed-world guard R0.",
+            "DESIGN.md 4/C12"),
+    "C18": ("per-class shape rules + transitive no-dereference analysis of constructors (ast, alias tracking)",
+            "Static check of all 84 exported optimizers: constructor has defaults for every parameter and never dereferences the "
+            "configuration transitively; set_config_parameters is exactly `self._config = K(**parameters)` with K the class in "
+            "the constructor annotation; optimize is sealed and starts with the configuration test; `configuration` returns "
+            "self._config. With C08's per-run initialisation analysis this gives run(ctor(cfg)) == run(ctor(); set_config_parameters).",
+            "pydantic validates at K(**d); closed-world guard R0.",
+            "DESIGN.md 4/C18"),
     "C07": ("effect analysis of randomness sources over the per-class call graph + typed-sink and seeding-dominance rules (ast)",
             "Static effect analysis: for each of the 84 optimizers every function reachable from optimize() is scanned and "
             "every external reference classified against a randomness source table; np.random.seed(task.seed) must be the "
